@@ -6,6 +6,8 @@ From SV Require Import Model.WireArp Proofs.WireArpProofs.
 From SV Require Import Model.WireUdp Proofs.WireUdpProofs.
 From SV Require Import Model.WireIpv4 Proofs.WireIpv4Proofs.
 From SV Require Import Model.WireIpv6 Proofs.WireIpv6Proofs.
+From SV Require Import Model.WireIcmpv4 Proofs.WireIcmpv4Proofs.
+From SV Require Import Model.WireIcmpv6 Proofs.WireIcmpv6Proofs.
 From SV Require Import Props.C06.
 
 Check (C06_eth_emit_no_panic : forall r b,
@@ -120,3 +122,44 @@ Check (C06_ipv6_reparse : forall bs r,
   forall b, blen b = ipv6_buffer_len r ->
     exists bs', ipv6_emit r b = Ok bs' /\
       forall payload, blen payload = ipv6_payload_len r -> ipv6_parse (bs' ++ payload) = Ok r).
+
+Check (C06_icmpv4_emit_no_panic : forall (sum_ok : list Z -> bool) sum_fill tx tx4 r b,
+  icmpv4_wf r = true -> blen b = icmpv4_buffer_len r -> icmpv4_emit sum_fill tx tx4 r b <> Panic).
+
+Check (C06_icmpv4_emit_ignores_old_bytes : forall (sum_ok : list Z -> bool) sum_fill tx tx4 r b1 b2,
+  icmpv4_wf r = true -> blen b1 = icmpv4_buffer_len r -> blen b2 = icmpv4_buffer_len r ->
+  icmpv4_emit sum_fill tx tx4 r b1 = icmpv4_emit sum_fill tx tx4 r b2).
+
+Check (C06_icmpv4_roundtrip : forall sum_ok sum_fill tx tx4 rx r b,
+  icmpv4_cksum_link sum_ok sum_fill -> icmpv4_wf r = true -> (rx = true -> tx = true) ->
+  blen b = icmpv4_buffer_len r ->
+  exists bs, icmpv4_emit sum_fill tx tx4 r b = Ok bs /\ blen bs = icmpv4_buffer_len r /\
+             icmpv4_parse sum_ok rx bs = Ok r).
+
+Check (C06_icmpv4_reparse : forall sum_ok sum_fill tx tx4 rx bs r,
+  icmpv4_cksum_link sum_ok sum_fill -> bytes_ok bs = true -> blen bs <= 65535 ->
+  (rx = true -> tx = true) -> icmpv4_parse sum_ok rx bs = Ok r ->
+  icmpv4_wf r = true /\
+  forall b, blen b = icmpv4_buffer_len r ->
+    exists bs', icmpv4_emit sum_fill tx tx4 r b = Ok bs' /\ icmpv4_parse sum_ok rx bs' = Ok r).
+
+Check (C06_icmpv6_emit_no_panic : forall (sum_ok : list Z -> bool) sum_fill tx r b,
+  icmpv6_wf r = true -> blen b = icmpv6_buffer_len r -> icmpv6_emit sum_fill tx r b <> Panic).
+
+Check (C06_icmpv6_emit_ignores_old_bytes : forall (sum_ok : list Z -> bool) sum_fill tx r b1 b2,
+  icmpv6_wf r = true -> blen b1 = icmpv6_buffer_len r -> blen b2 = icmpv6_buffer_len r ->
+  icmpv6_emit sum_fill tx r b1 = icmpv6_emit sum_fill tx r b2).
+
+Check (C06_icmpv6_roundtrip : forall sum_ok sum_fill tx rx r b,
+  icmpv6_cksum_link sum_ok sum_fill -> icmpv6_wf r = true -> (rx = true -> tx = true) ->
+  blen b = icmpv6_buffer_len r ->
+  exists bs, icmpv6_emit sum_fill tx r b = Ok bs /\ blen bs = icmpv6_buffer_len r /\
+             icmpv6_parse sum_ok rx bs = Ok r).
+
+Check (C06_icmpv6_reparse : forall sum_ok sum_fill tx rx bs r,
+  icmpv6_cksum_link sum_ok sum_fill -> bytes_ok bs = true ->
+  (icmpv6_repr_is_error r = true -> blen bs <= icmpv6_MAX_ERROR_PACKET_LEN) ->
+  (rx = true -> tx = true) -> icmpv6_parse sum_ok rx bs = Ok r ->
+  icmpv6_wf r = true /\
+  forall b, blen b = icmpv6_buffer_len r ->
+    exists bs', icmpv6_emit sum_fill tx r b = Ok bs' /\ icmpv6_parse sum_ok rx bs' = Ok r).
